@@ -7,6 +7,12 @@ code and to this program and diffs the answers.
   op <id> <opname> <args…>     → prints "<id> <answer>"
 -/
 import GoderiveModel.U.Wire
+import Driver.State
+import Driver.OpsLists
+import Driver.OpsFuncs
+import Driver.OpsMem
+import Driver.OpsConc
+import Driver.OpsCopy
 import GoderiveModel.U.Typing
 import GoderiveModel.S.Equal
 import GoderiveModel.Spec.StructEq
@@ -16,48 +22,10 @@ import GoderiveModel.Spec.Order
 
 open Goderive
 
-structure DState where
-  decls : Array Decl := #[]
-  tys : List (String × Ty) := []
-  deriving Inhabited
-
-def DState.env (s : DState) : Env := { decls := s.decls.toList }
-
-/-- recompute the `canEq` flags as a fixpoint (never trusted from the wire) -/
-def fixFlags (ds : Array Decl) : Array Decl := Id.run do
-  let mut cur := ds.map fun d => { d with canEq := true }
-  for _ in [0:ds.size + 1] do
-    let env : Env := { decls := cur.toList }
-    cur := cur.map fun d => { d with canEq := canEqual env d.under }
-  return cur
-
-def showRes (r : Res Bool) : String :=
-  match r with
-  | .ok true => "true"
-  | .ok false => "false"
-  | .panic => "panic"
-
-def showResI (r : Res Int) : String :=
-  match r with
-  | .ok n => toString n
-  | .panic => "panic"
-
-def showResU (r : Res UInt64) : String :=
-  match r with
-  | .ok n => toString n
-  | .panic => "panic"
-
-def lookupTy (s : DState) (e : SExp) : Option Ty :=
-  match e with
-  | .atom a => match s.tys.lookup a with
-    | some t => some t
-    | none => parseTy e
-  | _ => parseTy e
-
 def argsConsistent (args : List SExp) : Bool :=
   heapConsistent ((args.filterMap parseVal).flatMap objs)
 
-def runOp (s : DState) (name : String) (args : List SExp) : String :=
+def runOpCore (s : DState) (name : String) (args : List SExp) : String :=
   let env := s.env
   if !argsConsistent args then "ill-formed-heap" else
   match args with
@@ -91,6 +59,23 @@ def runOp (s : DState) (name : String) (args : List SExp) : String :=
       | _, _ => "bad-op"
     | _, _ => "bad-op"
   | _ => "bad-op"
+
+def runOp (s : DState) (name : String) (args : List SExp) : String :=
+  match OpsLists.run s name args with
+  | some r => r
+  | none =>
+  match OpsFuncs.run s name args with
+  | some r => r
+  | none =>
+  match OpsMem.run s name args with
+  | some r => r
+  | none =>
+  match OpsConc.run s name args with
+  | some r => r
+  | none =>
+  match OpsCopy.run s name args with
+  | some r => r
+  | none => runOpCore s name args
 
 def step (s : DState) (line : String) : DState × Option String :=
   match SExp.parseAll (SExp.tokenize line) with
